@@ -57,6 +57,11 @@ type space struct {
 	codec  *charcode.Codec
 	cidWin []*window
 	tuWin  []*window
+
+	// coincide marks the spaces of the code-length coincidence family: codes
+	// of different lengths that agree in their big-endian value, in their
+	// leading bytes up to zero padding, or in their low bytes (codeRelations)
+	coincide bool
 }
 
 func run(start string, n int) []string {
@@ -128,6 +133,53 @@ func buildSpaces() ([]*space, error) {
 				mkWindow("run 824140..824144", run("\x82\x41\x40", 5)...),
 				mkWindow("boundary 8241FD..824201", run("\x82\x41\xfd", 5)...),
 				mkWindow("double boundary 82FFFD..830001", run("\x82\xff\xfd", 5)...),
+			},
+		},
+		// The code-length coincidence family.  In the mixed space above no
+		// longer code starts with the leading bytes of a shorter code followed
+		// by zero bytes, and no two codes of different lengths have the same
+		// numeric value.  The three spaces below are chosen so that these
+		// coincidences occur between codes of all lengths 1..4 inside a window
+		// (codeRelations lists them; Run refuses to start if one is missing).
+		{
+			// leading zero bytes, lengths 1-3: <41> = <0041> = <000041>
+			name: "mixed <20>-<7F> <0001>-<1FFF> <000000>-<0000FF>", kind: "mixed123z", coincide: true,
+			rngs: []rng{{"\x20", "\x7f"}, {"\x00\x01", "\x1f\xff"}, {"\x00\x00\x00", "\x00\x00\xff"}},
+			cidWin: []*window{
+				mkWindow("equal values 41,42 0041,0042 000041,000042", "\x41", "\x42", "\x00\x41", "\x00\x42", "\x00\x00\x41", "\x00\x00\x42"),
+				mkWindow("consecutive values 7E,7F 007E..0081", "\x7e", "\x7f", "\x00\x7e", "\x00\x7f", "\x00\x80", "\x00\x81"),
+			},
+			tuWin: []*window{
+				mkWindow("equal values 41 0041,0042 000041,000042", "\x41", "\x00\x41", "\x00\x42", "\x00\x00\x41", "\x00\x00\x42"),
+				mkWindow("consecutive values 7F 007E..0081", "\x7f", "\x00\x7e", "\x00\x7f", "\x00\x80", "\x00\x81"),
+			},
+		},
+		{
+			// zero bytes after the first byte, lengths 2-4: the leading bytes of
+			// <41 00 42> and <41 00 00 42> are those of <41 42> followed by zeros
+			name: "mixed <2001>-<7FFF> <200001>-<7F00FF> <20000000>-<7F0000FF>", kind: "mixed234m", coincide: true,
+			rngs: []rng{{"\x20\x01", "\x7f\xff"}, {"\x20\x00\x01", "\x7f\x00\xff"}, {"\x20\x00\x00\x00", "\x7f\x00\x00\xff"}},
+			cidWin: []*window{
+				mkWindow("zeros after first byte 4141,4142 410041,410042 41000041,41000042", "\x41\x41", "\x41\x42", "\x41\x00\x41", "\x41\x00\x42", "\x41\x00\x00\x41", "\x41\x00\x00\x42"),
+				mkWindow("row ends 41FF,4201 4100FF,420001 410000FF,42000000", "\x41\xff", "\x42\x01", "\x41\x00\xff", "\x42\x00\x01", "\x41\x00\x00\xff", "\x42\x00\x00\x00"),
+			},
+			tuWin: []*window{
+				mkWindow("zeros after first byte 4141,4142 410041,410042 41000041", "\x41\x41", "\x41\x42", "\x41\x00\x41", "\x41\x00\x42", "\x41\x00\x00\x41"),
+				mkWindow("row ends 41FF 4100FE,4100FF 410000FF,42000000", "\x41\xff", "\x41\x00\xfe", "\x41\x00\xff", "\x41\x00\x00\xff", "\x42\x00\x00\x00"),
+			},
+		},
+		{
+			// leading zero bytes, all four lengths:
+			// <41> = <00000041>, <0141> = <000141> = <00000141>
+			name: "mixed <20>-<7F> <0100>-<1FFF> <000100>-<00FFFF> <00000000>-<0000FFFF>", kind: "mixed1234z", coincide: true,
+			rngs: []rng{{"\x20", "\x7f"}, {"\x01\x00", "\x1f\xff"}, {"\x00\x01\x00", "\x00\xff\xff"}, {"\x00\x00\x00\x00", "\x00\x00\xff\xff"}},
+			cidWin: []*window{
+				mkWindow("four lengths 41 0141 000141 00000141 00000041,00000042", "\x41", "\x01\x41", "\x00\x01\x41", "\x00\x00\x01\x41", "\x00\x00\x00\x41", "\x00\x00\x00\x42"),
+				mkWindow("three runs 41,42 0141,0142 000141,000142", "\x41", "\x42", "\x01\x41", "\x01\x42", "\x00\x01\x41", "\x00\x01\x42"),
+			},
+			tuWin: []*window{
+				mkWindow("four lengths 41 0141 000141 00000141 00000041", "\x41", "\x01\x41", "\x00\x01\x41", "\x00\x00\x01\x41", "\x00\x00\x00\x41"),
+				mkWindow("runs 0141,0142 000141,000142 00000141", "\x01\x41", "\x01\x42", "\x00\x01\x41", "\x00\x01\x42", "\x00\x00\x01\x41"),
 			},
 		},
 	}
@@ -226,6 +278,66 @@ func textRelations(alpha []string) map[string]int {
 		}
 	}
 	return out
+}
+
+// codeRelations classifies every pair (s, t) of codes of different lengths
+// that occur together in a window (s the shorter one) by the coincidences a
+// range compression that groups codes "by all bytes but the last" can trip
+// over when it forgets the length of a code: equal value (t is s with zero
+// bytes in front), equal leading bytes up to zero padding (all bytes but the
+// last of t are those of s followed by zero bytes: the packed charcode.Code of
+// the leading bytes is the same number), and how the last bytes relate.  It is
+// a statement about the windows (reported in the evidence), not an oracle.
+func codeRelations(spaces []*space) map[string]int {
+	out := map[string]int{}
+	zeros := func(n int) string { return strings.Repeat("\x00", n) }
+	for _, sp := range spaces {
+		for _, w := range append(append([]*window{}, sp.cidWin...), sp.tuWin...) {
+			for _, s := range w.codes {
+				for _, t := range w.codes {
+					if len(s) >= len(t) {
+						continue
+					}
+					d := len(t) - len(s)
+					var cl []string
+					if t == zeros(d)+s {
+						cl = append(cl, "value-equal")
+					}
+					if t[:len(t)-1] == s[:len(s)-1]+zeros(d) {
+						cl = append(cl, "leading-bytes-equal-up-to-zero-padding")
+					}
+					switch ls, lt := s[len(s)-1], t[len(t)-1]; {
+					case ls == lt:
+						cl = append(cl, "last-byte-equal")
+					case ls+1 == lt || lt+1 == ls:
+						cl = append(cl, "last-byte-adjacent")
+					}
+					if len(cl) == 0 {
+						cl = []string{"unrelated"}
+					}
+					out[fmt.Sprintf("%d/%d bytes: %s", len(s), len(t), strings.Join(cl, ", "))]++
+				}
+			}
+		}
+	}
+	return out
+}
+
+// the coincidences the windows must realise
+var codeRelationsRequired = []string{
+	"1/2 bytes: value-equal, leading-bytes-equal-up-to-zero-padding, last-byte-equal",
+	"1/3 bytes: value-equal, leading-bytes-equal-up-to-zero-padding, last-byte-equal",
+	"1/4 bytes: value-equal, leading-bytes-equal-up-to-zero-padding, last-byte-equal",
+	"1/2 bytes: leading-bytes-equal-up-to-zero-padding, last-byte-adjacent", // <7F>, <0080>: one run if the lengths are forgotten
+	"1/2 bytes: last-byte-equal", // <41>, <0141>
+	"2/3 bytes: value-equal, last-byte-equal",
+	"2/4 bytes: value-equal, last-byte-equal",
+	"3/4 bytes: value-equal, last-byte-equal",
+	"2/3 bytes: leading-bytes-equal-up-to-zero-padding, last-byte-equal",
+	"2/4 bytes: leading-bytes-equal-up-to-zero-padding, last-byte-equal",
+	"3/4 bytes: leading-bytes-equal-up-to-zero-padding, last-byte-equal",
+	"2/3 bytes: leading-bytes-equal-up-to-zero-padding, last-byte-adjacent",
+	"1/2 bytes: unrelated", // the both-lengths window of the old mixed space
 }
 
 // parent maps (alphabet indices on the window), so that for every code the
@@ -507,10 +619,11 @@ func Run(tier string) int {
 		budget = 22 * time.Minute
 	}
 	r := ev.New("C13", tier, "exploration", budget)
-	r.Rule("a case is (code space, window of codes, chain of maps child..grandparent, [file configuration]); every map on the window over the value alphabet (for code->text: the base alphabet, and on the windows and chain configurations listed under tounicode_enlarged_* the enlarged alphabet with the multi-rune family) is built with SetMapping / NewToUnicodeFile and judged in memory against the Go map; one execution = one in-memory judgement or one Embed->close->reopen->Extract round trip; distinct non-trivial = distinct (space, window, chain, map) with at least two mapped codes (the range compression has a decision to take) plus distinct hand-built files")
+	r.Rule("a case is (code space, window of codes, chain of maps child..grandparent, [file configuration]); every map on the window over the value alphabet (for code->text: the base alphabet, and on the windows and chain configurations listed under tounicode_enlarged_* the enlarged alphabet with the multi-rune family) is built with SetMapping / NewToUnicodeFile and judged in memory against the Go map; the code spaces include the code-length coincidence family (code_length_coincidences_in_windows: windows holding codes of different lengths with equal value, with equal leading bytes up to zero padding, with equal or adjacent last bytes); one execution = one in-memory judgement or one Embed->close->reopen->Extract round trip; distinct non-trivial = distinct (space, window, chain, map) with at least two mapped codes (the range compression has a decision to take) plus distinct hand-built files (rectangular ranges, and the odd-range family: every ordered pair of end points from a grid per code length)")
 	r.Assume("reference model: the Go map the CMap was built from; code space equivalence decided by ref.go on the partition induced by all range bounds",
 		"a child cannot unmap a code of its parent: the map of a chain is parent overlaid by child; CID 0 and 'not enumerated' are the same answer when a parent is present",
-		"hand-built files (rectangular ranges, overlaps, notdef entries, short value lists) are judged for lookup/enumeration agreement on codes covered by exactly one entry and for identical behaviour after the round trip; a reference value is demanded only for one-row ranges (consecutive CIDs; one-element bfrange value = last rune incremented)")
+		"hand-built files (rectangular ranges, overlaps, notdef entries, short value lists) are judged for lookup/enumeration agreement on codes covered by exactly one entry and for identical behaviour after the round trip; a reference value is demanded only for one-row ranges (consecutive CIDs; one-element bfrange value = last rune incremented)",
+		"odd ranges (several rows with a partial last-byte span, end points in lexicographic but not byte-wise order, first > last): no specification gives them a meaning, so only agreement of enumeration and lookup is demanded, on every code that lies in the extent (rectangle united with numeric interval) of at most one entry, before and after the round trip, and identical behaviour after it; a file the reader refuses because first > last is 'not accepted'")
 	if msg := selfTest(); msg != "" {
 		r.Infra("reference self-test failed: " + msg)
 		return r.Finish()
@@ -523,6 +636,14 @@ func Run(tier string) int {
 	rn := &runner{r: r, spaces: map[string]*space{}, forms: newSeenSet(), shapes: newSeenSet(), pairShapes: newSeenSet()}
 	for _, sp := range spaces {
 		rn.spaces[sp.name] = sp
+	}
+	crel := codeRelations(spaces)
+	r.Dim("code_length_coincidences_in_windows", crel)
+	for _, need := range codeRelationsRequired {
+		if crel[need] == 0 {
+			r.Infra("no window realises the code-length coincidence: " + need)
+			return r.Finish()
+		}
 	}
 
 	for _, k := range r.KnownWitnesses() {
@@ -550,6 +671,7 @@ func Run(tier string) int {
 	}
 	if parts == "" || strings.Contains(parts, "files") {
 		rn.runFiles()
+		rn.runOddFiles()
 	}
 	if parts == "" || strings.Contains(parts, "cid") {
 		rn.runCID()
@@ -562,6 +684,11 @@ func Run(tier string) int {
 	}
 
 	r.Dim("code_spaces", len(spaces))
+	var spaceNames []string
+	for _, sp := range sortedSpaces(rn.spaces) {
+		spaceNames = append(spaceNames, sp.name)
+	}
+	r.Dim("code_space_list", spaceNames)
 	r.Dim("cid_alphabet", cidAlphaNames)
 	r.Dim("tounicode_alphabet", tuAlphaNames[:tuBaseLen])
 	r.Dim("file_configurations_cid", len(allConfigs))
@@ -592,20 +719,27 @@ func (rn *runner) runCID() {
 		ch    chainCfg
 		alpha []int // alphabet of the in-memory enumeration
 		top   int   // value of the most significant digit
+		forms bool  // every distinct form over the embedded sub-alphabet goes through a file
 	}
 	var units []unit
 	nwin := 0
+	formChains := map[string]bool{}
 	for _, sp := range sortedSpaces(rn.spaces) {
 		for _, w := range sp.cidWin {
 			nwin++
 			for _, ch := range chains {
+				forms := formsThroughFile(r, sp, ch)
+				if sp.coincide && forms {
+					formChains[ch.name] = true
+				}
 				for top := range full {
-					units = append(units, unit{sp, w, ch, full, top})
+					units = append(units, unit{sp, w, ch, full, top, forms})
 				}
 			}
 		}
 	}
 	r.Dim("cid_windows", nwin)
+	r.Dim("coincidence_spaces_chain_configurations_with_forms_through_a_file", sortedKeys(formChains))
 	r.Dim("cid_chain_configurations", len(chains))
 	r.Dim("cid_maps_per_window_and_chain", pow(len(full), 6))
 
@@ -618,6 +752,11 @@ func (rn *runner) runCID() {
 		embedAlpha[a] = true
 	}
 	r.Dim("cid_alphabet_embedded", len(embedAlpha))
+	embedSub := map[int]bool{} // the spaces of the coincidence family: the sub-alphabet in either tier
+	for _, a := range cidSub {
+		embedSub[a] = true
+	}
+	r.Dim("cid_alphabet_embedded_coincidence_spaces", len(embedSub))
 
 	r.Par(len(units), func(ui int) {
 		u := units[ui]
@@ -636,8 +775,12 @@ func (rn *runner) runCID() {
 			chain := append([][]int{child}, u.ch.parents...)
 
 			inSub := true
+			emb := embedAlpha
+			if u.sp.coincide {
+				emb = embedSub
+			}
 			for _, a := range child {
-				if !embedAlpha[a] {
+				if !emb[a] {
 					inSub = false
 					break
 				}
@@ -652,7 +795,7 @@ func (rn *runner) runCID() {
 					// every version x pretty/compressed; WMode alternates
 					cfgs = append(cfgs, shapeConfigs[t&1]...)
 				}
-				if inSub && rn.forms.first("cid/"+pre+cidFormKey(f)) {
+				if inSub && u.forms && rn.forms.first("cid/"+pre+cidFormKey(f)) {
 					cfgs = append(cfgs, allConfigs[(t+u.top+ui)%len(allConfigs)])
 				}
 				return cfgs
@@ -688,7 +831,10 @@ func (rn *runner) runTU() {
 	// quick: three windows (a run of 5, runs of 3+2, runs of 2+3), no parent;
 	// thorough: every window, no parent and parent A.  Everywhere else the
 	// base alphabet.  A unit enumerates the complete product over its alphabet.
-	useEnlarged := func(w *window, ch chainCfg) bool {
+	useEnlarged := func(sp *space, w *window, ch chainCfg) bool {
+		if sp.coincide {
+			return false // the multi-rune family and the code lengths are independent of each other
+		}
 		if r.Thorough() {
 			return ch.name == "none" || ch.name == "parent A"
 		}
@@ -700,7 +846,8 @@ func (rn *runner) runTU() {
 		ch       chainCfg
 		alpha    []int
 		enlarged bool
-		top      int // position in alpha of the value of the last code
+		top      int  // position in alpha of the value of the last code
+		forms    bool // as in runCID
 	}
 	var units []unit
 	nwin := 0
@@ -711,7 +858,7 @@ func (rn *runner) runTU() {
 		for _, w := range sp.tuWin {
 			nwin++
 			for _, ch := range chains {
-				alpha, enl := base, useEnlarged(w, ch)
+				alpha, enl := base, useEnlarged(sp, w, ch)
 				if enl {
 					alpha = enlargedAlpha
 					nEnl++
@@ -723,7 +870,7 @@ func (rn *runner) runTU() {
 					nBase++
 				}
 				for top := range alpha {
-					units = append(units, unit{sp, w, ch, alpha, enl, top})
+					units = append(units, unit{sp, w, ch, alpha, enl, top, formsThroughFile(r, sp, ch)})
 				}
 			}
 		}
@@ -783,7 +930,7 @@ func (rn *runner) runTU() {
 			child := append([]int{}, idx...)
 			chain := append([][]int{child}, u.ch.parents...)
 			var inSub bool
-			if len(u.ch.parents) > 0 {
+			if len(u.ch.parents) > 0 || u.sp.coincide {
 				inSub = allIn(child, embedBaseP) || (u.enlarged && allIn(child, embedMultiP))
 			} else {
 				inSub = allIn(child, embedBase) || (u.enlarged && allIn(child, embedMulti))
@@ -794,7 +941,7 @@ func (rn *runner) runTU() {
 				if rn.shapes.first(fmt.Sprintf("tu/%s%d/%s", pre, len(chain), tuShapeKey(f))) {
 					cfgs = append(cfgs, tuConfigs...)
 				}
-				if inSub && rn.forms.first("tu/"+pre+tuFormKey(f)) {
+				if inSub && u.forms && rn.forms.first("tu/"+pre+tuFormKey(f)) {
 					cfgs = append(cfgs, tuConfigs[(t+u.top+ui)%len(tuConfigs)])
 				}
 				return cfgs
@@ -813,13 +960,35 @@ func (rn *runner) runTU() {
 	})
 }
 
+// formsThroughFile says whether the maps of a (space, chain configuration)
+// unit go through a file once per distinct form.  The spaces of the
+// code-length coincidence family do so in the quick tier only without a parent
+// and below parent A (and in either tier over the sub-alphabets of the quick
+// tier); every map is judged in memory under every chain configuration, and
+// every distinct shape goes through a file under all configurations, in either
+// tier.
+func formsThroughFile(r *ev.Run, sp *space, ch chainCfg) bool {
+	if !sp.coincide || r.Thorough() {
+		return true
+	}
+	return ch.name == "none" || ch.name == "parent A"
+}
+
 func sortedSpaces(m map[string]*space) []*space {
-	order := []string{"1-byte <00>-<FF>", "2-byte <0000>-<FFFF>", "mixed <00>-<7F> <8000>-<FFFF>", "3-byte <810000>-<83FFFF>"}
+	// the spaces of the code-length coincidence family come first: a run that
+	// is cut short by its deadline on a loaded machine has covered them
+	order := []string{
+		"mixed <20>-<7F> <0001>-<1FFF> <000000>-<0000FF>", "mixed <2001>-<7FFF> <200001>-<7F00FF> <20000000>-<7F0000FF>",
+		"mixed <20>-<7F> <0100>-<1FFF> <000100>-<00FFFF> <00000000>-<0000FFFF>",
+		"1-byte <00>-<FF>", "2-byte <0000>-<FFFF>", "mixed <00>-<7F> <8000>-<FFFF>", "3-byte <810000>-<83FFFF>"}
 	var out []*space
 	for _, n := range order {
 		if sp, ok := m[n]; ok {
 			out = append(out, sp)
 		}
+	}
+	if len(out) != len(m) {
+		panic("sortedSpaces: a space is missing from the order")
 	}
 	return out
 }
